@@ -45,6 +45,7 @@ fn value_pool(tier: Tier) -> Vec<Value> {
         obj(&[("a", arr(&[i(1), s("s")]))]),
         obj(&[("a", Value::Null)]),
         obj(&[("b", arr(&[]))]),
+        obj(&[("a", arr(&[i(1)])), ("b", s("x"))]),
     ];
     if tier.thorough() {
         v.extend([
@@ -102,7 +103,45 @@ fn kind_gens(v: &Value) -> Vec<(String, Kind)> {
             out.push(("json".into(), Kind::json()));
         }
     }
+    // nested collections opened up: every NESTED array / object keeps its known members and additionally admits
+    // unknown members of the union of their kinds (`{a: [integer, ...integer]}`): schema-like kinds that no literal has
+    if matches!(v, Value::Array(_) | Value::Object(_)) {
+        let opened = open_nested(&exact, true);
+        if opened != exact {
+            out.push(("nested-open".into(), opened));
+        }
+    }
     out.retain(|(n, k)| n != "json" || member(v, k));
+    out
+}
+
+fn open_nested(k: &Kind, top: bool) -> Kind {
+    let mut out = k.clone();
+    if let Some(a) = k.as_array() {
+        let mut c: Collection<vrl::value::kind::Index> = Collection::empty();
+        let mut un = Kind::never();
+        for (i, e) in a.known() {
+            let e2 = open_nested(e, false);
+            un = un.union(e2.clone());
+            c = c.with_known(*i, e2);
+        }
+        if !top {
+            c.set_unknown(if un.is_never() { Kind::integer() } else { un });
+        }
+        out = Kind::array(c);
+    } else if let Some(o) = k.as_object() {
+        let mut c: Collection<vrl::value::kind::Field> = Collection::empty();
+        let mut un = Kind::never();
+        for (f, e) in o.known() {
+            let e2 = open_nested(e, false);
+            un = un.union(e2.clone());
+            c = c.with_known(f.clone(), e2);
+        }
+        if !top {
+            c.set_unknown(if un.is_never() { Kind::integer() } else { un });
+        }
+        out = Kind::object(c);
+    }
     out
 }
 
